@@ -1,0 +1,50 @@
+//go:build verif
+// +build verif
+
+package ff
+
+import "math/big"
+
+// Hooks for the verification harness (/verif). Add-only; compiled only with
+// -tags verif. They expose the portable routines, which are otherwise
+// reachable only on non-amd64 targets, and the run-time ADX switch.
+
+// VerifMulGeneric calls the portable Montgomery multiplication.
+func VerifMulGeneric(z, x, y *Element) { _mulGeneric(z, x, y) }
+
+// VerifFromMontGeneric calls the portable Montgomery reduction.
+func VerifFromMontGeneric(z *Element) { _fromMontGeneric(z) }
+
+// VerifAddGeneric calls the portable addition.
+func VerifAddGeneric(z, x, y *Element) { _addGeneric(z, x, y) }
+
+// VerifDoubleGeneric calls the portable doubling.
+func VerifDoubleGeneric(z, x *Element) { _doubleGeneric(z, x) }
+
+// VerifSubGeneric calls the portable subtraction.
+func VerifSubGeneric(z, x, y *Element) { _subGeneric(z, x, y) }
+
+// VerifNegGeneric calls the portable negation.
+func VerifNegGeneric(z, x *Element) { _negGeneric(z, x) }
+
+// VerifReduceGeneric calls the portable conditional subtraction.
+func VerifReduceGeneric(z *Element) { _reduceGeneric(z) }
+
+// VerifButterflyGeneric calls the portable butterfly.
+func VerifButterflyGeneric(a, b *Element) { _butterflyGeneric(a, b) }
+
+// VerifMulByConstant calls the portable small-constant multiplication.
+func VerifMulByConstant(z *Element, c uint8) { mulByConstant(z, c) }
+
+// VerifSetSupportAdx switches the run-time ADX dispatch and returns the old value.
+func VerifSetSupportAdx(b bool) bool {
+	old := supportAdx
+	supportAdx = b
+	return old
+}
+
+// VerifModulusRaw returns the package's own modulus object (not a copy).
+func VerifModulusRaw() *big.Int { return &_modulus }
+
+// VerifQElement returns the limbs of the modulus constant and of rSquare.
+func VerifQElement() (Element, Element) { return qElement, rSquare }
